@@ -432,3 +432,354 @@ CORPUS = [
                                                ("where", "`my col`"), ("orderBy", ["AB"]), ("limit",), ("distinct",)]},
     {"names": ["AB", "Xy"], "ops": [("agg", ["Mx", "c d"])]},
 ]
+
+
+# ------------------------------------------------------------------------------------------------
+# judging
+# ------------------------------------------------------------------------------------------------
+VIEWS = ["columns", "fields", "schema", "pandas"]
+
+
+def _is_ticked(x):
+    return len(x) >= 2 and x[0] == "`" and x[-1] == "`"
+
+
+def signature(prog, k, st, o, kind):
+    """shape predicate of a deviation at step k (0 = createDataFrame) of `prog`.  kind: raises | receiver | names"""
+    op = prog["ops"][k - 1] if k > 0 else ("createDataFrame", prog["names"])
+    m = op[0]
+    if kind == "receiver":
+        return f"C10/receiver-respelled-by-{m}"
+    if kind == "raises":
+        err = (o.get("error") or "?").split(":")[0]
+        if m == "orderBy" and err == "ParseError" and any(key(attr(v)) in KW_ORDERBY and not _is_ticked(v) for v in op[1]):
+            return "C10/orderBy-reserved-word-raises"
+        if m == "orderBy" and err == "BinderException" and any(not attr(v).isascii() for v in op[1]):
+            return "C10/orderBy-nonascii-alias-in-same-select-raises"
+        if m == "join" and err == "ValueError" and any(needs_ticks(v) for v in op[2]):
+            return "C10/join-key-needing-quotes-raises"
+        return f"C10/raises:{m}:{err}"
+    # names: which views deviate from Spark's names
+    bad = [v for v in VIEWS if not st["s_" + v]]
+    if bad == ["schema"] and any(_is_ticked(x) and x[1:2].isdigit() for x in o["schema"]):
+        return "C10/leading-digit-name-schema-backticks"
+    if m == "toDF":
+        return "C10/toDF-names-not-recorded"
+    if m in ("drop", "fillna", "dropna", "dropDuplicates"):
+        return f"C10/{m}-respells-columns"
+    if m == "groupAgg":
+        return "C10/groupBy-agg-names-not-recorded"
+    if m == "join":
+        return "C10/join-right-side-names-lost"
+    if m == "select":
+        if any(a[0] == "str" and _is_ticked(a[1]) for a in op[1]):
+            return "C10/select-backticked-string-keeps-backticks"
+        ks = [key(attr(a[2] if a[0] == "alias" else a[1])) for a in op[1]]
+        if len(set(ks)) != len(ks):
+            return "C10/select-same-column-twice"
+        if any(a[0] == "col" and _is_ticked(a[1]) and not needs_ticks(attr(a[1])) for a in op[1]) and bad == ["schema"]:
+            return "C10/backticked-plain-name-schema-stale"
+    return f"C10/{m}:" + "+".join(bad)
+
+
+def well_formed(prog):
+    """every reference resolves and names stay distinct (Python proxy of the Coq spec; used by the shrinker only)"""
+    ns = list(prog["names"])
+    for op in prog["ops"]:
+        refs = []
+        if op[0] in ("select", "groupAgg"):
+            refs = [attr(a[1]) for a in op[1]]
+        elif op[0] == "withColumn":
+            refs = [attr(op[2])]
+        elif op[0] in ("withColumnRenamed", "where"):
+            refs = [attr(op[1])]
+        elif op[0] in ("drop", "dropDuplicates", "orderBy"):
+            refs = [attr(v) for v in op[1]]
+        elif op[0] == "fillna":
+            refs = [attr(v) for v in (op[1] or [])]
+        elif op[0] == "join":
+            refs = list(op[2])
+            if any(key(v) not in {key(x) for x in op[1]} for v in op[2]):
+                return False
+        elif op[0] == "toDF" and len(op[1]) != len(ns):
+            return False
+        if any(key(r) not in {key(x) for x in ns} for r in refs):
+            return False
+        ns = py_spec_step(op, ns)
+        if not ns:
+            return False
+    return True
+
+
+def _tup(op):
+    def conv(x):
+        if isinstance(x, list):
+            if x and isinstance(x[0], str) and x[0] in ("str", "col", "alias") and len(x) in (2, 3):
+                return tuple(x)
+            return [conv(y) for y in x]
+        return x
+    return tuple(conv(x) for x in op)
+
+
+def load_recordings():
+    path = os.path.join(core.VERIF, "oracle", "c10_pyspark.jsonl")
+    out = []
+    if os.path.exists(path):
+        for line in open(path):
+            r = json.loads(line)
+            r["ops"] = [_tup(o) for o in r["ops"]]
+            out.append(r)
+    return out
+
+
+def prog_str(prog, upto=None):
+    ops = prog["ops"] if upto is None else prog["ops"][:upto]
+    s = f"createDataFrame([...], {prog['names']!r})"
+    for op in ops:
+        s += "." + op[0] + repr(tuple(op[1:]))
+    return s
+
+
+def run(ctx: core.Ctx):
+    from translate import c10_facts
+    try:
+        text, facts = c10_facts.generate(core.REPO)
+        ctx.gen("C10Facts", text, facts)
+        t1_ok = True
+    except Exception as ex:                                   # noqa: BLE001
+        ctx.broken("T1:c10_facts", f"{type(ex).__name__}: {ex}")
+        t1_ok = False
+        ctx.gen("C10Facts", open(core.VERIF + "/translate/c10_facts_pinned.v").read())
+    proved = ctx.prove([ctx.build + "/gen/C10Facts.v"] + ([core.COQ + "/props/C10.v"] if t1_ok else []),
+                       dep_theories=["C10/Names.v", "C10/Model.v", "C10/Spec.v", "C10/Domain.v", "C10/Check.v",
+                                     "C10/Proofs.v", "C10/Ascii.v"])
+    ctx.log(f"T1 {'ok' if t1_ok else 'BROKEN'}, proofs {'ok' if proved else 'BROKEN'}")
+
+    import sqlframe.duckdb.functions as F
+    from sqlframe.duckdb import DuckDBSession
+    session = DuckDBSession()
+    rnd = random.Random(ctx.seed)
+    recs = load_recordings()
+    quick = ctx.tier == "quick"
+    n_rec = 110 if quick else len(recs)
+    n_rand = 150 if quick else 2600
+    n_digit = 14 if quick else 200
+    progs = [("corpus", p) for p in CORPUS]
+    progs += [("recorded", {"names": r["names"], "ops": r["ops"]}) for r in recs[len(CORPUS):len(CORPUS) + n_rec]]
+    g = Gen(rnd)
+    progs += [("random", g.program(4 if rnd.random() < 0.8 else 7)) for _ in range(n_rand)]
+    gd = Gen(rnd, digits=True)
+    for _ in range(n_digit * 30):
+        if sum(1 for t, _ in progs if t == "digit") >= n_digit:
+            break
+        p = gd.program(3)
+        if any(CATEGORY.get(x) == "digit" or x[:1].isdigit() for x in all_strings(p)):
+            progs.append(("digit", p))
+    # distinct programs only
+    seen, uniq = set(), []
+    for tag, p in progs:
+        kk = json.dumps(p, sort_keys=True, default=list, ensure_ascii=False)
+        if kk not in seen and all(py_lower_ok(x) for x in all_strings(p)):
+            seen.add(kk)
+            uniq.append((tag, p))
+    progs = uniq
+    obs = [run_program(session, F, p) for _, p in progs]
+    n_steps = sum(len(o) for o in obs)
+    ctx.log(f"{len(progs)} programs, {n_steps} observed steps on the implementation")
+    items = [case_coq(p, o) for (_, p), o in zip(progs, obs)]
+    res = ctx.cases("c10", HEADER, items, per_file=30, result_ty="str")
+
+    hist_op, hist_cat, hist_len, hist_tag = {}, {}, {}, {}
+    n_eval = n_nontriv = n_td = n_tc = n_model_dev = 0
+    model_fail, thm_fail = [], []
+    for (tag, p), o, r in zip(progs, obs, res):
+        hist_tag[tag] = hist_tag.get(tag, 0) + 1
+        hist_len[len(p["ops"])] = hist_len.get(len(p["ops"]), 0) + 1
+        for op in p["ops"]:
+            hist_op[op[0]] = hist_op.get(op[0], 0) + 1
+        for x in set(all_strings(p)):
+            cat = CATEGORY.get(attr(x)) or next((CATEGORY[n] for n in ALL_NAMES if key(n) == key(attr(x))), "other")
+            hist_cat[cat] = hist_cat.get(cat, 0) + 1
+        if r is None:
+            continue
+        pr = parse_result(r)
+        n_td += pr["td"]
+        n_tc += pr["tc"]
+        deviated = False
+        for k, (st, ob) in enumerate(zip(pr["steps"], o)):
+            n_eval += 1
+            op = p["ops"][k - 1] if k else None
+            changed = k > 0 and not ("error" in ob) and ob["columns"] != o[k - 1].get("columns")
+            mixed = any(x != x.lower() or needs_ticks(attr(x)) or not x.isascii() for x in all_strings({"names": p["names"], "ops": p["ops"][:k]}))
+            if k > 0 and mixed and (changed or "error" in ob):
+                n_nontriv += 1
+            desc = {"program": prog_str(p, k), "names": p["names"], "ops": [list(x) for x in p["ops"][:k]], "step": k,
+                    "implementation": ob, "flags": st, "coq_case": case_coq({"names": p["names"], "ops": p["ops"][:k]}, o[:k + 1])}
+            model_agrees = (st["impl_ok"] == st["model_ok"]) and (not st["impl_ok"] or all(st["m_" + v] for v in VIEWS + ["receiver"]))
+            kind = None
+            if not st["spec_ok"]:
+                pass                                   # ill-formed for Spark (the generator should not produce these)
+            elif not st["impl_ok"]:
+                kind = "raises"
+            elif not all(st["s_" + v] for v in VIEWS):
+                kind = "names"
+            elif k > 0 and ob["receiver_after"] != ob["receiver_before"]:
+                kind = "receiver"
+            if kind and not deviated:
+                deviated = True
+                sig = signature(p, k, st, ob, kind)
+                what = {"raises": f"raises {ob.get('error')} where PySpark returns names",
+                        "names": "reports names that differ from PySpark's: " + ", ".join(
+                            f"{v}={ob.get(v)}" for v in VIEWS if not st["s_" + v]),
+                        "receiver": f"changed the receiver's columns from {ob.get('receiver_before')} to {ob.get('receiver_after')}"}[kind]
+                desc["spark_names"] = _py_names(p, k)
+                ctx.deviation(sig, f"{prog_str(p, k)} {what}", shrink(session, F, p, k, sig, desc))
+                if not model_agrees:
+                    n_model_dev += 1
+            if not kind and st["spec_ok"] and not model_agrees:
+                model_fail.append(desc)
+            if proved and pr["td"] and pr["cfg_ok"] and st["model_ok"] and not st["model_eq_spec"]:
+                thm_fail.append(desc)
+            if len(ctx.samples) < 5 and k == len(o) - 1 and k >= 2 and tag == "random":
+                ctx.sample({"program": prog_str(p, k), "implementation": ob, "flags": st})
+            if "error" in ob:
+                break
+    if model_fail:
+        ctx.broken("T3:impl-vs-model", f"{len(model_fail)} steps where the implementation agrees with Spark but not with the "
+                   f"model; first: {model_fail[0]['program']}", data=model_fail[:5])
+    if thm_fail:
+        ctx.broken("theorem-vs-evaluation", "in-domain program on which model and spec evaluate differently", data=thm_fail[:3])
+
+    # ---- spec conformance: Spark.names against the names recorded from PySpark 3.5.9
+    n_rs = n_rbad = 0
+    ritems, rmeta = [], []
+    for r in recs:
+        if any("error" in st for st in r["steps"]) or not all(py_lower_ok(x) for x in all_strings(r)):
+            continue
+        ob = []
+        for st in r["steps"]:
+            ob.append({"columns": st["columns"], "schema": st["schema"], "fields": st.get("fields", st["columns"]),
+                       "pandas": st.get("pandas", st["columns"])})
+        ritems.append(case_coq(r, ob))
+        rmeta.append(r)
+    rres = ctx.cases("c10rec", HEADER, ritems, per_file=60, result_ty="str")
+    badrec = []
+    for r, rr in zip(rmeta, rres):
+        if rr is None:
+            continue
+        pr = parse_result(rr)
+        for k, st in enumerate(pr["steps"]):
+            n_rs += 1
+            if not (st["spec_ok"] and all(st["s_" + v] for v in VIEWS)):
+                n_rbad += 1
+                badrec.append({"program": prog_str(r, k), "pyspark": r["steps"][k], "flags": st})
+                break
+    if badrec:
+        ctx.broken("spec-conformance", f"{len(badrec)} recorded PySpark programs whose names differ from Spark.names; first: "
+                   f"{badrec[0]['program']} -> {badrec[0]['pyspark']}", data=badrec[:5])
+    if not recs:
+        ctx.broken("spec-conformance", "oracle/c10_pyspark.jsonl is missing")
+
+    ctx.coverage.update({
+        "evaluations": n_eval, "distinct_nontrivial": n_nontriv, "programs": len(progs),
+        "rule": "evaluation = one step of a program (createDataFrame or a naming operation) observed through df.columns, "
+                "collect()[0].__fields__, schema names, toPandas().columns and the receiver's columns, all compared with the Coq "
+                "model and Spark.names; programs are distinct; non-trivial = the program so far uses a mixed-case / quoted / "
+                "non-ASCII spelling and the step changed the reported names or raised",
+        "histogram_operation": hist_op, "histogram_name_category": hist_cat, "histogram_program_length": hist_len,
+        "histogram_source": hist_tag, "in_domain_names_theorem": n_td, "in_domain_views_theorem": n_tc,
+        "model_disagrees_on_a_deviating_step": n_model_dev,
+        "pyspark_recorded_steps_checked": n_rs, "pyspark_recorded_steps_disagree": n_rbad,
+    })
+    ctx.assumptions += [
+        "C10.Names.qspark/qduck/qsafe/unbt and Model.kw_orderby are my definitions of sqlglot 26.14's identifier parsing, quoting "
+        "and of the keywords orderBy cannot re-parse (validated by T3 on every run, never proved about sqlglot)",
+        "DuckDB reports a quoted output alias verbatim and binds ORDER BY keys to output aliases folding ASCII case only",
+        "CPython's str.lower() is applied per code point (names with context-dependent case mapping are not generated); the "
+        "theorems hold for every normalisation that is idempotent and preserves quoting class / back-tick freeness / leading "
+        "digit -- proved for ASCII lower-casing, assumed (and tested through per-case tables) for non-ASCII code points",
+        "Spark.names (C10.Spec) is my reading of PySpark 3.5's analyzer, validated against oracle/c10_pyspark.jsonl",
+        "names with dots, embedded back-ticks or quotes, leading/trailing blanks, all-digit names and the literals null/true/false "
+        "are outside the generator (sqlglot's exotic identifier syntax)",
+    ]
+
+
+def _py_names(p, k):
+    ns = list(p["names"])
+    for op in p["ops"][:k]:
+        ns = py_spec_step(op, ns)
+    return ns
+
+
+def shrink(session, F, prog, k, sig, desc):
+    """drop earlier operations while the same signature still shows on the implementation (Python proxy of the spec;
+    the unshrunk case judged by Coq stays in the replay)"""
+    best = {"names": prog["names"], "ops": list(prog["ops"][:k])}
+
+    def deviates(q):
+        if not well_formed(q):
+            return False
+        o = run_program(session, F, q)
+        kk = len(q["ops"])
+        if len(o) <= kk:
+            return False
+        ob = o[kk]
+        want = _py_names(q, kk)
+        if "error" in ob:
+            return sig.endswith("raises") or sig.startswith("C10/raises")
+        if sig.startswith("C10/receiver"):
+            return ob.get("receiver_after") != ob.get("receiver_before")
+        if sig.endswith("raises") or sig.startswith("C10/raises"):
+            return False
+        if any("error" in x for x in o[:kk]):
+            return False
+        prev_ok = all(all(x[v] == _py_names(q, i) for v in VIEWS) for i, x in enumerate(o[:kk]))
+        return prev_ok and any(ob[v] != want for v in VIEWS)
+
+    if k > 1:
+        i = 0
+        while i < len(best["ops"]) - 1:
+            cand = {"names": best["names"], "ops": best["ops"][:i] + best["ops"][i + 1:]}
+            try:
+                if deviates(cand) and signature_of(session, F, cand) == sig:
+                    best = cand
+                    continue
+            except Exception:                                 # noqa: BLE001
+                pass
+            i += 1
+    out = dict(desc)
+    out["shrunk"] = {"program": prog_str(best), "names": best["names"], "ops": [list(x) for x in best["ops"]],
+                     "spark_names": _py_names(best, len(best["ops"])),
+                     "implementation": run_program(session, F, best)[-1]}
+    return out
+
+
+def signature_of(session, F, q):
+    """signature of the deviation at the last step of q, judged with the Python proxy of the spec (shrinker only)"""
+    o = run_program(session, F, q)
+    kk = len(q["ops"])
+    ob = o[kk]
+    want = _py_names(q, kk)
+    if "error" in ob:
+        return signature(q, kk, {}, ob, "raises")
+    st = {"s_" + v: ob[v] == want for v in VIEWS}
+    if not all(st.values()):
+        return signature(q, kk, st, ob, "names")
+    if ob.get("receiver_after") != ob.get("receiver_before"):
+        return signature(q, kk, st, ob, "receiver")
+    return None
+
+
+def replay(ctx, rp):
+    """re-run the program of a replay file on the current tree and print what the four views report"""
+    r = rp.get("replay") or (rp.get("no_longer_checks") or [{}])[0].get("data", [{}])[0]
+    r = r.get("shrunk") or r
+    import sqlframe.duckdb.functions as F
+    from sqlframe.duckdb import DuckDBSession
+    prog = {"names": r["names"], "ops": [_tup(o) for o in r["ops"]]}
+    obs = run_program(DuckDBSession(), F, prog)
+    print("program:", prog_str(prog))
+    for k, o in enumerate(obs):
+        print(f" step {k}:", o)
+    print("PySpark reports:", r.get("spark_names") or r.get("spark") or _py_names(prog, len(prog["ops"])))
+    return 0
